@@ -17,10 +17,58 @@ from rsx.core import *  # noqa
 from rsx import stdmodels  # noqa
 from rsx.interp import Program, Interp  # noqa
 from vlib.check import Check, run_check  # noqa
+from vlib import native  # noqa
 from checks import lexmodels as L  # noqa
 from checks.tytemplates import HookSession  # noqa
 
 ALPHABET = [ord('"'), 10, ord('a'), ord(' '), ord('/'), ord('\\'), 0xE9, ord('1')]
+
+
+MERGE_PROGRAMS = [
+    # merges whose second position ends before the first one (the parser's end-of-file placeholder, nested
+    # sub-expressions) and ordinary left-to-right merges, on the first and on later lines, with multi-byte text before
+    "foo(1 +", "let xs = [10, 20 +", "foo(1 +\n", "\nfoo(1 +", "let x =", "x = ", "x += ", "f(a.b(", "[1, (2", "Dict[\"k\" => 1 +",
+    "foo(\"é\" +", "  foo(1 -", "foo(1 + 2", "foo(1 +\n  2 +", "let y = (1 +", "if x {", "fun f() { 1 +", "f(1, 2 *",
+    "let s = \"a\nb\" +", "foo(bar(1 +",
+]
+_MERGE_REPLAY = {}
+
+
+def native_merge_replay():
+    """Incomplete programs through `garden check --json`: every reported range must be ordered (end not before start),
+    lie inside the file and have columns within their lines."""
+    if "r" in _MERGE_REPLAY:
+        return _MERGE_REPLAY["r"]
+    import json as _json
+    bad = []
+    n = 0
+    for src in MERGE_PROGRAMS:
+        code, out, err = native.run_file(src, subcmd=("check", "--json"))
+        if code == 101:
+            continue        # a front-end crash is C01's subject
+        lines = src.split("\n")
+        for raw in out.splitlines():
+            raw = raw.strip()
+            if not raw.startswith("{"):
+                continue
+            try:
+                d = _json.loads(raw)
+                ln, el, c, ec = d["line_number"], d["end_line_number"], d["column"], d["end_column"]
+            except (ValueError, KeyError):
+                continue
+            n += 1
+            why = None
+            if el < ln or (el == ln and ec < c):
+                why = f"end ({el}:{ec}) before start ({ln}:{c})"
+            elif not (1 <= ln <= len(lines)) or not (1 <= el <= len(lines)):
+                why = "line out of range"
+            elif c > len(lines[ln - 1].encode()) or ec > len(lines[el - 1].encode()):
+                why = "column past the end of its line"
+            if why:
+                bad.append({"source": src, "diagnostic": raw[:200], "why": why})
+    _MERGE_REPLAY["r"] = {"reproduced": bool(bad), "artefact": bad[:2], "ranges_examined": n,
+                          "detail": f"{len(bad)} of {n} ranges reported for {len(MERGE_PROGRAMS)} incomplete programs are inconsistent"}
+    return _MERGE_REPLAY["r"]
 
 
 def main():
@@ -191,7 +239,7 @@ def main():
                        f["end_line_number"].z() == LINE(e), f["end_column"].z() == COL(e))
 
         def replay_merge(mm):
-            return {"reproduced": False, "detail": "merge counterexamples are over abstract line/column functions; confirm by reading"}
+            return native_merge_replay()
         C.prove(f"merge/path{i}:consistent", r.pc, claim, site="merge/inconsistent",
                 what="merging two consistent positions (first starting no later) gives an inconsistent position", replay=replay_merge)
         C.sample({"merge_path": i, "obligation": "start=a.start, end=max, line/col fields = LINE/COL at those offsets"})
@@ -203,6 +251,14 @@ def main():
             C.validation_mismatch(f"position oracle disagrees with the real lexer on undisputed input {s!r}: {detail}")
         else:
             C.validated_against_impl()
+    rep = native_merge_replay()
+    if rep["reproduced"]:
+        C.prove("merge/native-incomplete-programs", [], False, site="merge/native-range-inconsistent",
+                what="`garden check --json` reports an unordered or out-of-line range for an incomplete program", replay=lambda m: rep)
+    elif rep["ranges_examined"] == 0:
+        C.inconclusive.append("merge replay library produced no diagnostics")
+    else:
+        C.validated_against_impl(rep["ranges_examined"])
     if hook["h"]:
         hook["h"].close()
     C.models_used |= stdmodels.USED
